@@ -41,6 +41,13 @@ def run_checks(d, checks, tier="quick", seed=None):
 
 def apply(d, diff_text, reverse=False):
     cmd = ["patch", "-p1", "-s", "-d", d] + (["-R"] if reverse else [])
+    p = subprocess.run(cmd + ["--dry-run"], input=diff_text.encode(), stdout=subprocess.PIPE, stderr=subprocess.STDOUT)
+    if p.returncode != 0:
+        # a later fix: commit changed the context lines of this one: retry with the maximal fuzz
+        cmd += ["-F", "3"]
+        p = subprocess.run(cmd + ["--dry-run"], input=diff_text.encode(), stdout=subprocess.PIPE, stderr=subprocess.STDOUT)
+        if p.returncode != 0:
+            raise SystemExit("patch failed: " + p.stdout.decode())
     p = subprocess.run(cmd, input=diff_text.encode(), stdout=subprocess.PIPE, stderr=subprocess.STDOUT)
     if p.returncode != 0:
         raise SystemExit("patch failed: " + p.stdout.decode())
